@@ -20,15 +20,19 @@ pub struct Case {
     ctx: usize,       // 0 off, 1 on: rip outside, 2 on: rip inside principal, 3 on: rip == end of principal
     /// stack sanitising on as well (it must not influence which stacks are kept)
     sanitize: bool,
+    /// target flavour: 0 three test threads only; 1 = 22 block threads created first (the test threads sit
+    /// at list positions >= 20) and the size limit engaged; 2 = like 1 with the stack pointers in the
+    /// upper half of their page
+    flavour: u8,
 }
 
 impl Case {
     fn to_json(&self) -> Value {
-        json!({"modes": self.modes.iter().map(|m| MODES[*m]).collect::<Vec<_>>(), "principal": self.principal, "ctx": self.ctx, "sanitize": self.sanitize})
+        json!({"modes": self.modes.iter().map(|m| MODES[*m]).collect::<Vec<_>>(), "principal": self.principal, "ctx": self.ctx, "sanitize": self.sanitize, "flavour": self.flavour})
     }
     fn from_json(v: &Value) -> Option<Case> {
         let m: Vec<usize> = v.get("modes")?.as_array()?.iter().filter_map(|x| MODES.iter().position(|n| Some(*n) == x.as_str())).collect();
-        Some(Case { modes: [m[0], m[1], m[2]], principal: v.get("principal")?.as_u64()? as usize, ctx: v.get("ctx")?.as_u64()? as usize, sanitize: v.get("sanitize").and_then(|x| x.as_bool()).unwrap_or(false) })
+        Some(Case { modes: [m[0], m[1], m[2]], principal: v.get("principal")?.as_u64()? as usize, ctx: v.get("ctx")?.as_u64()? as usize, sanitize: v.get("sanitize").and_then(|x| x.as_bool()).unwrap_or(false), flavour: v.get("flavour").and_then(|x| x.as_u64()).unwrap_or(0) as u8 })
     }
 }
 
@@ -38,10 +42,18 @@ pub struct Target {
     region_rw: u64, // a second dedicated region that is NOT executable (data mapping as principal mapping)
     sp: [u64; 3],
     hi: [u64; 3], // end of each thread's stack mapping
+    /// index (in p.threads) of the first of the three test threads
+    first: usize,
+    flavour: u8,
 }
 
-fn make_target() -> Target {
+fn make_target(flavour: u8) -> Target {
     let mut p = Puppet::spawn();
+    if flavour >= 1 {
+        for _ in 0..22 {
+            p.add_thread(Kind::Block);
+        }
+    }
     let region = p.pattern(2, "hole", "rx");
     let region_rw = p.pattern(2, "hole", "rw");
     let mut sp = [0u64; 3];
@@ -53,7 +65,7 @@ fn make_target() -> Target {
         let stack = p.pattern(2, "hole", "rw");
         hi[i] = stack + 2 * 4096;
         let t = p.mkthread(Kind::Spin);
-        let rsp = stack + 0x7c0;
+        let rsp = stack + if flavour == 2 { 0xfc0 } else { 0x7c0 };
         p.set_gpr(t, RSP, rsp);
         for r in 0..16 {
             if r != RSP {
@@ -69,7 +81,8 @@ fn make_target() -> Target {
     }
     // scrub the captured part of the stacks of anything that might look like a pointer into the regions
     p.quiesce();
-    Target { p, region, region_rw, sp, hi }
+    let first = if flavour >= 1 { 22 } else { 0 };
+    Target { p, region, region_rw, sp, hi, first, flavour }
 }
 
 fn expected_reference(mem: &[u8], base: u64, sp: u64, low: u64, high: u64) -> bool {
@@ -89,7 +102,7 @@ pub fn run_case(t: &mut Target, c: &Case) -> Vec<(String, String)> {
     let mut fails = Vec::new();
     let (low, high) = match c.principal {
         0 => (t.region, t.region + 2 * 4096),
-        1 => (t.p.threads[0].page, t.p.threads[0].page + 4096),
+        1 => (t.p.threads[t.first].page, t.p.threads[t.first].page + 4096),
         3 => (t.region_rw, t.region_rw + 2 * 4096),
         _ => (0x10, 0x10),
     };
@@ -112,10 +125,10 @@ pub fn run_case(t: &mut Target, c: &Case) -> Vec<(String, String)> {
             t.p.write(s, &ptr.to_le_bytes());
         }
     }
-    let blamed = t.p.threads[1].tid;
-    let mut o = DumpOpts { skip_unref: true, principal: Some(if c.principal == 2 { 0x10 } else { low as usize + 0x40 }), blamed: Some(blamed), sanitize: c.sanitize, ..Default::default() };
+    let blamed = t.p.threads[t.first + 1].tid;
+    let mut o = DumpOpts { skip_unref: true, principal: Some(if c.principal == 2 { 0x10 } else { low as usize + 0x40 }), blamed: Some(blamed), sanitize: c.sanitize, size_limit: if t.flavour >= 1 { Some(0) } else { None }, ..Default::default() };
     let ctx_rip = match c.ctx {
-        1 => Some(t.p.threads[1].page + 0x10),
+        1 => Some(t.p.threads[t.first + 1].page + 0x10),
         2 => Some(if c.principal == 2 { t.region } else { low + 4 }),
         3 => Some(if c.principal == 2 { t.region } else { high }),
         _ => None,
@@ -125,14 +138,26 @@ pub fn run_case(t: &mut Target, c: &Case) -> Vec<(String, String)> {
     }
     // expectations from the target's real memory
     let mut exp = [false; 3];
+    let mut ambiguous = [false; 3];
     let mut why = [""; 3];
     let have_mapping = c.principal != 2;
     for i in 0..3 {
         let hi = t.hi[i];
         let base = t.sp[i] & !0xfff;
         let mem = t.p.read(base, (hi - base) as usize);
-        let ip_inside = if i == 1 && ctx_rip.is_some() { let r = ctx_rip.unwrap(); r >= low && r < high } else { let pg = t.p.threads[i].page; pg >= low && pg < high };
-        let refd = expected_reference(&mem, base, t.sp[i], low, high);
+        let ip_inside = if i == 1 && ctx_rip.is_some() { let r = ctx_rip.unwrap(); r >= low && r < high } else { let pg = t.p.threads[t.first + i].page; pg >= low && pg < high };
+        let mut refd = expected_reference(&mem, base, t.sp[i], low, high);
+        if t.flavour >= 1 && !(i == 1 && ctx_rip.is_some()) {
+            // size-limited thread (list position >= 20, not the crash thread): the writer keeps the 2 KiB
+            // chunk that holds sp; a reference inside it is certain, one beyond it is not judged
+            let chunk = base + ((t.sp[i] - base) / 2048) * 2048;
+            let win = t.p.read(chunk, 2048);
+            let in_window = expected_reference(&win, chunk, t.sp[i], low, high);
+            if refd && !in_window {
+                ambiguous[i] = true;
+            }
+            refd = in_window;
+        }
         exp[i] = have_mapping && (ip_inside || refd);
         why[i] = if ip_inside { "ip inside" } else if refd { "stack word" } else { "nothing" };
     }
@@ -153,7 +178,7 @@ pub fn run_case(t: &mut Target, c: &Case) -> Vec<(String, String)> {
     };
     let d = Dump::parse(&bytes);
     for i in 0..3 {
-        let tid = t.p.threads[i].tid as u32;
+        let tid = t.p.threads[t.first + i].tid as u32;
         let Some(th) = d.threads.iter().find(|x| x.tid == tid) else {
             fails.push(("thread-record-missing".into(), format!("thread {i} has no thread record")));
             continue;
@@ -162,7 +187,7 @@ pub fn run_case(t: &mut Target, c: &Case) -> Vec<(String, String)> {
             fails.push(("context-missing".into(), format!("thread {i}: no CPU context")));
         }
         let included = th.stack.size > 0;
-        if included != exp[i] {
+        if included != exp[i] && !ambiguous[i] {
             let k = if included { "stack-kept-but-unreferenced" } else { "stack-dropped-but-referenced" };
             let detail = if included && c.ctx == 3 && i == 1 { "/ip-equals-mapping-end" } else { "" };
             fails.push((format!("{k}{detail}"), format!("thread {i} (placement {}, reference through: {}): stack included = {included}, rule says {}", MODES[c.modes[i]], why[i], exp[i])));
@@ -197,9 +222,14 @@ fn cases(thorough: bool) -> Vec<Case> {
                 if !thorough && ctx >= 2 && t.iter().filter(|x| **x != 0).count() > 1 {
                     continue;
                 }
-                v.push(Case { modes: [t[0], t[1], t[2]], principal, ctx, sanitize: false });
+                v.push(Case { modes: [t[0], t[1], t[2]], principal, ctx, sanitize: false, flavour: 0 });
                 if ctx < 2 {
-                    v.push(Case { modes: [t[0], t[1], t[2]], principal, ctx, sanitize: true });
+                    v.push(Case { modes: [t[0], t[1], t[2]], principal, ctx, sanitize: true, flavour: 0 });
+                }
+                // crowded targets with the size limit engaged (the test threads' stacks are cut to 2 KiB)
+                if ctx < 2 && (principal == 0 || principal == 3) && (thorough || t.iter().filter(|x| **x != 0).count() <= 1) {
+                    v.push(Case { modes: [t[0], t[1], t[2]], principal, ctx, sanitize: false, flavour: 1 });
+                    v.push(Case { modes: [t[0], t[1], t[2]], principal, ctx, sanitize: false, flavour: 2 });
                 }
             }
         }
@@ -209,9 +239,17 @@ fn cases(thorough: bool) -> Vec<Case> {
 
 pub fn run(ctx: &Ctx, rep: &mut Report) {
     let cs = cases(ctx.tier.is_thorough());
-    let chunks: Vec<Vec<Case>> = cs.chunks(cs.len().div_ceil(16)).map(|c| c.to_vec()).collect();
+    let mut chunks: Vec<Vec<Case>> = Vec::new();
+    for fl in 0..3u8 {
+        let of: Vec<Case> = cs.iter().filter(|c| c.flavour == fl).cloned().collect();
+        if of.is_empty() {
+            continue;
+        }
+        let per = of.len().div_ceil(if fl == 0 { 12 } else { 4 });
+        chunks.extend(of.chunks(per).map(|c| c.to_vec()));
+    }
     let results = par_map(&chunks, |_, chunk| {
-        let mut t = make_target();
+        let mut t = make_target(chunk[0].flavour);
         let mut out = Vec::new();
         for c in chunk {
             t.p.quiesce();
@@ -248,7 +286,7 @@ pub fn replay(case: &Value, rep: &mut Report) {
         rep.machinery("bad replay".into());
         return;
     };
-    let mut t = make_target();
+    let mut t = make_target(c.flavour);
     rep.evaluations += 1;
     for (k, m) in run_case(&mut t, &c) {
         rep.violation(&format!("dump/{k}"), &m, case.clone());
